@@ -158,7 +158,8 @@ def crash_identity(exc_type, frames):
   frame, the stage in which it was raised is used instead."""
   if exc_type == "RecursionError" or not frames:
     return [exc_type, "stage:%s" % stage_of(frames)]
-  return [exc_type, "%s:%s" % (frames[-1][0], frames[-1][1])]
+  specific = [f for f in frames if f[0] not in ("datatypes.py",)] or frames   # container helpers say nothing
+  return [exc_type, "%s:%s" % (specific[-1][0], specific[-1][1])]
 
 
 def describe_exc(e):
